@@ -37,12 +37,19 @@ type VerifSchedSnap struct {
 	EscGen   uint64
 	State    string // name of the state function, "nil" after the loop
 	IgnoreST bool
+	Locked   bool // p.mu is held by one of the parked goroutines
 }
 
-// VerifSchedSnapshot reads the fields the mutex guards WITHOUT taking it; only meaningful while
+// VerifSchedSnapshot reads the fields the mutex guards WITHOUT keeping it (it only tries the mutex
+// to see whether it is held); only meaningful while
 // the goroutines of p are parked in VerifSchedHook (or blocked in a read of the harness).
 func VerifSchedSnapshot(p *Parser) VerifSchedSnap {
 	s := VerifSchedSnap{EscGen: p.escGen, IgnoreST: p.ignoreST, State: "nil"}
+	if p.mu.TryLock() {
+		p.mu.Unlock()
+	} else {
+		s.Locked = true
+	}
 	if p.state != nil {
 		n := runtime.FuncForPC(reflect.ValueOf(p.state).Pointer()).Name()
 		s.State = n[strings.LastIndexByte(n, '.')+1:]
